@@ -21,6 +21,7 @@ import (
 
 	"github.com/blevesearch/bleve/v2/analysis"
 	"github.com/blevesearch/bleve/v2/registry"
+	"github.com/blevesearch/bleve/v2/util"
 )
 
 const Name = "dict_compound"
@@ -108,15 +109,15 @@ func DictionaryCompoundFilterConstructor(config map[string]interface{}, cache *r
 	maxSubWordSize := defaultMaxSubWordSize
 	onlyLongestMatch := defaultOnlyLongestMatch
 
-	minVal, ok := config["min_word_size"].(float64)
+	minVal, ok := util.ExtractNumericValFloat64(config["min_word_size"])
 	if ok {
 		minWordSize = int(minVal)
 	}
-	minSubVal, ok := config["min_subword_size"].(float64)
+	minSubVal, ok := util.ExtractNumericValFloat64(config["min_subword_size"])
 	if ok {
 		minSubWordSize = int(minSubVal)
 	}
-	maxSubVal, ok := config["max_subword_size"].(float64)
+	maxSubVal, ok := util.ExtractNumericValFloat64(config["max_subword_size"])
 	if ok {
 		maxSubWordSize = int(maxSubVal)
 	}
